@@ -5,7 +5,26 @@ rise, recession -> curve walker -> findings for the property being checked."""
 from . import core, curves_common, gen_planted, gen_series, oracle_curves
 
 
+def span_zero(case):
+    """Shift a record so that its median water level is 0 mm (grid level 0 and
+    levels of both signs then occur in the curves)"""
+    zs = sorted(v for _, v in case['z'])
+    shift = -round(zs[len(zs) // 2])
+    case = dict(case)
+    case['z'] = [[t, v + shift] for t, v in case['z']]
+    if 'truth' in case:
+        case['truth'] = [dict(tr, R=[r + shift for r in tr['R']]) for tr in case['truth']]
+    return case
+
+
 def make_case(rng, i):
+    case = _make_case(rng, i)
+    if i % 5 == 3:
+        case = span_zero(case)
+    return case
+
+
+def _make_case(rng, i):
     kind = i % 6
     if kind in (0, 1):
         return gen_planted.gen(rng)
